@@ -48,7 +48,31 @@ ASSUMPTIONS = [
     "W/W2 grammar: any interleaving of `c [w ...]` and `c1 c2 w` with integer cids; malformed arrays are tie-checked only",
     "vertical documents are generated with Tz = 100 and Tc = 0 (text-state arithmetic belongs to C05)",
 ]
-STATEMENT_STATUS: Dict[str, str] = {}
+STATEMENT_STATUS: Dict[str, str] = {
+    "identity_segment": "proved: IdentityCMap.decode = complete big-endian 2-byte codes, every length (after fix 70858cb)",
+    "identity_segment_odd": "proved: a trailing odd byte is ignored",
+    "identity_byte_segment": "proved",
+    "identity_names": "proved over tables regenerated from pdffont.py / cmapdb.py",
+    "trie_decode_spec": "proved for every trie: codes* ++ incomplete code -> the CIDs of the codes; bytes that start no "
+                        "code are outside the statement (modelled and tie-checked)",
+    "trie_decode_codes": "proved (no trailing incomplete code)",
+    "tounicode_parse_spec": "proved: CMapParser(tokens of the CMap) = specified map for all bfchar/bfrange programs in "
+                            "inDomain (carry form of the increment); excluded: U+0020->U+00A0 redefinition "
+                            "(tounicode_nbsp_cex), 32-bit / field overflow, start/end of different length",
+    "tounicode_parse_assignments": "proved without the U+00A0 hypothesis, in terms of add_cid2unichr assignments",
+    "bfchar_map": "proved (handler level)",
+    "bfrange_map": "proved (handler level; increment and array form)",
+    "tounicode_nbsp_cex": "proved counter-example: deliberate U+00A0 rule of add_cid2unichr, outside the domain",
+    "widths_map_spec": "proved: get_widths(render W) = specified dictionary, any interleaving of both syntaxes",
+    "widths_spec": "proved: width of a cid = latest W entry, else DW, else 1000 (regenerated default)",
+    "vertical_advance": "proved (Tc = 0, Tz = 100)",
+    "horizontal_advance": "proved (Tc = 0, Tz = 100)",
+    "glyph_placement": "proved",
+    "vertical_default": "proved over the regenerated DW2 default",
+    "future work": "bfrange_inc as ISO's last-byte increment (incLast) = carry form when the last byte does not overflow; "
+                   "utf16 round trip utf16Ignore (utf16Encode cps) = cps; get_widths2 = spec for W2; TrueType cmap "
+                   "formats 0/2/4 are checked on the implementation only (no Lean model)",
+}
 
 logging.getLogger("pdfminer").setLevel(logging.CRITICAL)
 
@@ -915,6 +939,63 @@ def run_widths(ctx: C.Ctx) -> None:
     b.flush()
 
 
+def run_fontwidth(ctx: C.Ctx) -> None:
+    """PDFCIDFont.char_width / DW / DW2 defaults against the model's glyphWidth / glyphWidthV (tie of the
+    regenerated defaults) and against the spec."""
+    from pdfminer.pdffont import PDFCIDFont
+    from pdfminer.psparser import LIT
+    rng = ctx.rng
+    lines, meta = [], []
+    for i in range(ctx.n(150, 5000)):
+        vertical = i % 2 == 1
+        ents = gen_w2_entries(rng) if vertical else gen_w_entries(rng)
+        elems = render_w2(ents) if vertical else render_w(ents)
+        spec: Dict[str, Any] = {"Type": LIT("Font"), "Subtype": LIT("CIDFontType2"), "BaseFont": LIT("X"),
+                                "CIDSystemInfo": {"Registry": b"Adobe", "Ordering": b"Identity", "Supplement": 0},
+                                "Encoding": LIT("Identity-V" if vertical else "Identity-H"), "FontDescriptor": {}}
+        dflt = None
+        if vertical:
+            spec["W2"] = elems
+            if rng.random() < 0.5:
+                dflt = [rng.choice([880, 700]), rng.choice([-1000, -800, -500.5])]
+                spec["DW2"] = dflt
+        else:
+            spec["W"] = elems
+            if rng.random() < 0.5:
+                dflt = rng.choice([1000, 0, 250.5, 600])
+                spec["DW"] = dflt
+        font, e = call(lambda: PDFCIDFont(None, spec))
+        if e is not None:
+            ctx.fail(C.Failure("PDFCIDFont could not be built from a well-formed W/W2 array",
+                               {"group": "fontwidth", "vertical": vertical, "elems": [welem_word(x) for x in elems]},
+                               "a font", exc_line(e), {"group": "fontwidth", "exc": type(e).__name__}))
+            continue
+        sw = spec_widths2(ents) if vertical else spec_widths(ents)
+        cids = [en[1] for en in ents] + [en[1] + 1 for en in ents] + [0, rng.randint(0, 400)]
+        for cid in cids[:6]:
+            got = font.char_width(cid) * 1000
+            if vertical:
+                exp = sw[cid][0] if cid in sw else F(dflt[1] if dflt else -1000)
+                dw = "-" if dflt is None else num_word(dflt[0]) + "|" + num_word(dflt[1])
+                lines.append(f"gwv {dw} {cid} {elems_words(elems)}")
+            else:
+                exp = sw.get(cid, F(dflt if dflt is not None else 1000))
+                lines.append(f"gw {'-' if dflt is None else num_word(dflt)} {cid} {elems_words(elems)}")
+            inp = {"group": "fontwidth", "vertical": vertical, "cid": cid, "dflt": dflt,
+                   "entries": [(w2ent_word if vertical else went_word)(x) for x in ents]}
+            meta.append((inp, got))
+            ctx.case(("fw", vertical, cid, tuple(welem_word(x) for x in elems), str(dflt)), True,
+                     branch="fontwidth:" + ("v" if vertical else "h") + (":default" if cid not in sw else ":entry")
+                     + (":nodw" if dflt is None else ""))
+            if not close(exp, got):
+                ctx.fail(C.Failure("CID font: width of a cid differs from W/DW (W2/DW2)", inp, str(exp), got,
+                                   {"group": "fontwidth", "vertical": vertical, "default": cid not in sw}))
+    if ctx.driver is not None and lines:
+        for (inp, got), out in zip(meta, ctx.driver.ask(lines)):
+            if not out.startswith("R ") or not close(F(out[2:]), got):
+                ctx.disagree("fontwidth.model", inp, got, out)
+
+
 # =========================================================================== codec: data check of the shipped pickles
 # (a TEST, not a theorem): for every character of the repertoire that the platform codec can encode, the predefined
 # CMap must split the codec's bytes into exactly one code and the collection's Unicode map must give the character back.
@@ -1623,6 +1704,29 @@ def replay(ctx: C.Ctx, doc, from_corpus: bool = False) -> None:
             ctx.fail(C.Failure("predefined CJK CMap / collection map disagrees with the platform codec (data check)",
                                inp, r[0], r[1], {"group": "codec", "cmap": inp["cmap"], "cp": inp["cp"],
                                                  "collection": inp["collection"], "no_unicode": "has no Unicode" in r[1]}))
+    elif g == "fontwidth":
+        from pdfminer.pdffont import PDFCIDFont
+        from pdfminer.psparser import LIT
+        vertical = inp["vertical"]
+        ents = [parse_w2ent_word(w) if vertical else parse_went_word(w) for w in inp["entries"]]
+        spec = {"Type": LIT("Font"), "Subtype": LIT("CIDFontType2"), "BaseFont": LIT("X"),
+                "CIDSystemInfo": {"Registry": b"Adobe", "Ordering": b"Identity", "Supplement": 0},
+                "Encoding": LIT("Identity-V" if vertical else "Identity-H"), "FontDescriptor": {},
+                ("W2" if vertical else "W"): (render_w2 if vertical else render_w)(ents)}
+        dflt = inp.get("dflt")
+        if dflt is not None:
+            spec["DW2" if vertical else "DW"] = dflt
+        sw = spec_widths2(ents) if vertical else spec_widths(ents)
+        cid = inp["cid"]
+        if vertical:
+            exp = sw[cid][0] if cid in sw else F(dflt[1] if dflt else -1000)
+        else:
+            exp = sw.get(cid, F(dflt if dflt is not None else 1000))
+        got, e = call(lambda: PDFCIDFont(None, spec).char_width(cid) * 1000)
+        ctx.case(("fw", json.dumps(inp, sort_keys=True)), True)
+        if e is not None or not close(exp, got):
+            ctx.fail(C.Failure("CID font: width of a cid differs from W/DW (W2/DW2)", inp, str(exp),
+                               got if e is None else exc_line(e), {"group": "fontwidth", "vertical": vertical}))
     elif g == "widths":
         from pdfminer import pdffont
         vertical = inp["vertical"]
@@ -1670,6 +1774,7 @@ def run(ctx: C.Ctx) -> None:
     run_seg(ctx)
     run_tounicode(ctx)
     run_widths(ctx)
+    run_fontwidth(ctx)
     run_ttf(ctx)
     run_doc(ctx)
     run_codec(ctx)
